@@ -269,6 +269,13 @@ func fieldWidthObls(fn *ssa.Function) []a6obl {
 				// PutUint16(buf, uint16(x & mask)): the mask truncates silently
 				if cal := x.Call.StaticCallee(); cal != nil && cal.Name() == "PutUint16" && len(x.Call.Args) == 3 {
 					if cv, ok := x.Call.Args[2].(*ssa.Convert); ok {
+						// PutUint16(buf, uint16(x)) of a wider x without a mask: x must fit 16 bits, otherwise
+						// the high part is dropped silently (a 24-bit size written with the 16-bit idiom)
+						if _, isAnd := cv.X.(*ssa.BinOp); !isAnd || cv.X.(*ssa.BinOp).Op != token.AND {
+							if sb, _, okb := intBits(cv.X.Type()); okb && sb > 16 {
+								out = append(out, fieldObl("le16", ins, cv.X, 16))
+							}
+						}
 						if and, ok := cv.X.(*ssa.BinOp); ok && and.Op == token.AND {
 							if k, ok := and.Y.(*ssa.Const); ok && k.Value != nil {
 								m, _ := constant.Int64Val(k.Value)
